@@ -1315,7 +1315,7 @@ fn self_check(ctx: &mut Ctx, valids: &[Valid]) -> u64 {
                     let ok = match (v.kind, SyncIncoming::decode(&s.bytes)) {
                         (k, Ok(SyncIncoming::Poll(_))) => k.starts_with("poll"),
                         ("push", Ok(SyncIncoming::Push(_))) => true,
-                        ("subscribe", Ok(SyncIncoming::Subscribe(_))) => true,
+                        (k, Ok(SyncIncoming::Subscribe(_))) => k.starts_with("subscribe"),
                         ("unsubscribe", Ok(SyncIncoming::Unsubscribe(_))) => true,
                         (k, Ok(SyncIncoming::Hello(_))) => k.starts_with("hello"),
                         _ => false,
